@@ -4,7 +4,7 @@
    the witness search when they or the correspondence break). *)
 From Coq Require Import NArith ZArith List Bool.
 Import ListNotations.
-From RCE Require Import lib.Bits lib.Geometry model.Board model.Movegen model.Wf spec.Rules model.Abs.
+From RCE Require Import lib.Bits lib.Geometry model.Board model.Movegen model.Wf model.WfFull spec.Rules model.Abs.
 
 Definition opt_eqb {A} (f : A -> A -> bool) (a b : option A) : bool :=
   match a, b with Some x, Some y => f x y | None, None => true | _, _ => false end.
@@ -42,7 +42,11 @@ Definition spec_check (b : Board) : list bool :=
                       && Bool.eqb (p_ep m) (is_ep p (move_of m))
                       && Bool.eqb (p_dpp m) (is_double_push (cells p) (move_of m))
                       && Bool.eqb (is_capture m) (is_capture_move p (move_of m))) em;
-    wfb b && forallb (move_okb b) (get_all_moves b) ].
+    wfb b && forallb (move_okb b) (get_all_moves b);
+    (* the rules-level side conditions: informational (probe positions may violate them on purpose) *)
+    wf_full b;
+    (* ... and they are preserved by every legal move *)
+    negb (wf_full b) || forallb (fun m => wf_full (make_move b m)) em ].
 
 From Coq Require Import String.
 From RCE Require Import model.Fen.
